@@ -663,16 +663,40 @@ STD_VARIANTS = {
     "std::result::Result": ["Ok", "Err"],
     "std::ops::ControlFlow": ["Continue", "Break"],
     "std::task::Poll": ["Ready", "Pending"],
+    "std::net::IpAddr": ["V4", "V6"],
+    "std::net::SocketAddr": ["V4", "V6"],
+    "std::cmp::Ordering": ["Less", "Equal", "Greater"],
+    "std::borrow::Cow": ["Borrowed", "Owned"],
 }
+
+
+def _strip_generic_tail(t):
+    """`a::B<X>::c::D<Y, Z>` -> `a::B<X>::c::D` (drop one balanced trailing <...> group)."""
+    if not t.endswith(">"):
+        return t
+    depth = 0
+    for i in range(len(t) - 1, -1, -1):
+        if t[i] == ">":
+            depth += 1
+        elif t[i] == "<":
+            depth -= 1
+            if depth == 0:
+                return t[:i]
+    return t
 
 
 def enum_variants(prog, ty):
     """Variant names (by discriminant order) for the type string of an enum, or None."""
     t = ty.lstrip("&").replace("mut ", "").strip()
-    base = t.split("<", 1)[0]
+    base = _strip_generic_tail(t)
     if base in STD_VARIANTS:
         return STD_VARIANTS[base]
-    e = prog.enums.get(base)
+    e = prog.enums.get(base) or prog.enums.get(t)
+    if e is None:
+        b2 = t.split("<", 1)[0]
+        e = prog.enums.get(b2)
+        if e is None and b2 in STD_VARIANTS:
+            return STD_VARIANTS[b2]
     if e:
         return [v["name"] for v in e["variants"]]
     return None
